@@ -147,7 +147,7 @@ func (r Ref) Accepts(text string) (bool, string) {
 func (r Ref) AcceptsFile(path string, full bool) (bool, string) {
 	extra := []string{"-d"}
 	if full {
-		extra = []string{"-S", "-o", "/dev/null"}
+		extra = nil // -Q alone: everything (rule merging, DFA construction) except the kernel load
 	}
 	so, se, err := r.runFile(path, extra...)
 	if err != nil {
